@@ -131,7 +131,9 @@ template <class T, class R> struct Driver {
                 if (!fx.run([&] { j.call(a, b, c, rp); })) { memset(rp, fx::Arena::CAN, j.sizeofR); continue; }
                 memcpy(obs, rd, sizeof(R) * n);
                 // elements whose scalar result is undefined are not judged: copy the observation into the expectation
-                size_t sk = 0; for (size_t i = 0; i < n; ++i) if (skip[i]) { e[i] = obs[i]; ++sk; }
+                // (both are blanked, so that the values dumped for the cross-configuration comparison of C06 carry no unjudged lanes either:
+                // e.g. max(x, NaN) is x or NaN depending on the operand order of the instruction, which the statement leaves open)
+                size_t sk = 0; for (size_t i = 0; i < n; ++i) if (skip[i]) { obs[i] = R(); e[i] = R(); ++sk; }
                 skipped += sk; judged += n - sk;
                 if (j.cls == RCP2) judge_rcp(fx, obs, e, r0, c, n);
                 else fx.eq(obs, e, n, r0, "", j.cls == EXACT_SZ);
